@@ -538,6 +538,9 @@ func specialScripts(thorough bool) []special {
 		if strings.HasPrefix(out[i].Name, "threads-") || strings.HasPrefix(out[i].Name, "recursion-bounded-") || strings.HasPrefix(out[i].Name, "sprintf-") {
 			out[i].DeadlineMS = 8000
 		}
+		if strings.Contains(out[i].Name, "defer") {
+			out[i].DeadlineMS = 25000 // filling a 1 GB native stack takes a few seconds
+		}
 	}
 	_ = thorough
 	return out
